@@ -100,6 +100,13 @@ def run(index: RepoIndex, rep) -> None:
     if steps:
         sc = steps[0]
         arg = src(w.expand(sc.node.args[0])) if sc.node.args else ''
+        if arg == ap and len(sc.node.args) == 1:
+            # the index is handed down as it is: OuterEnv.step resolves what is not an Action
+            from .c04 import outer_step_argument
+            op_ = index.cls('gym_gridverse/outer_env.py', 'OuterEnv').methods['step'] \
+                .node.args.args[1].arg
+            if outer_step_argument(index, False) == f'self.action_space.int_to_action({op_})':
+                arg = f'self.outer_env.action_space.int_to_action({ap})'
         rep.check(arg == f'self.outer_env.action_space.int_to_action({ap})' and len(sc.node.args) == 1,
                   'C20.R1', GYM, 'GymEnvironment.step', sc.line, src(sc.node),
                   f'outer_env.step receives `{arg}`, not int_to_action of the given index',
@@ -455,6 +462,15 @@ def outer_env_rules(index: RepoIndex, rep, rule: str) -> None:
         if want is None:
             p = [a.arg for a in m.node.args.args[1:]]
             want = f'self.inner_env.step({p[0]})' if p else ''
+        if meth == 'step' and calls != [want] and p:
+            # an index resolved by OuterEnv.step itself before the one delegation (C04.R5)
+            from .c04 import outer_step_argument
+            if outer_step_argument(index, True) == p[0] and \
+                    outer_step_argument(index, False) == \
+                    f'self.action_space.int_to_action({p[0]})' and \
+                    sorted(c for c in calls if not c.startswith('isinstance')) == sorted(
+                        [want, f'self.action_space.int_to_action({p[0]})']):
+                calls = [want]
         rep.check(calls == [want], rule, OUTER, f'OuterEnv.{meth}', m.node.lineno,
                   '; '.join(calls), f'OuterEnv.{meth} does not delegate with exactly one call '
                   f'{want}', f'delegate {meth}')
